@@ -51,9 +51,13 @@ Step ==
             /\ stack' = IF InFrameOf(e[2]) THEN SetTop(Bump([Top EXCEPT !.sawTrue = e[4]])) ELSE stack
             /\ UNCHANGED <<held, forced>>
        [] e[1] = "L" ->      \* load: visible, not forced, nothing held, decided inside the task's own request
-            /\ InFrameOf(e[2]) /\ Top.sawTrue /\ ~Top.h /\ e[2] \notin forced /\ ~Top.ran
-            /\ vis[e[3]] # "no"
-            /\ stack' = SetTop(Bump([Top EXCEPT !.loaded = TRUE]))
+            /\ InFrameOf(e[2])
+            /\ \/ /\ Top.sawTrue /\ ~Top.h /\ e[2] \notin forced /\ ~Top.ran
+                  /\ vis[e[3]] # "no"
+                  /\ stack' = SetTop(Bump([Top EXCEPT !.loaded = TRUE]))
+               \/ \* a lazily read result (GeneratedDataLazy.save) re-opens what this very request has just written
+                  /\ Top.ran /\ Top.done
+                  /\ stack' = SetTop(Bump(Top))
             /\ UNCHANGED <<vis, held, forced>>
        [] e[1] = "R" ->      \* run: nothing held, not loaded, and the result is missing or the task forced
             /\ InFrameOf(e[2]) /\ ~Top.h /\ ~Top.loaded /\ ~Top.ran
